@@ -6,6 +6,7 @@ import (
 	"go/token"
 	"go/types"
 	"sort"
+	"strconv"
 	"strings"
 )
 
@@ -31,6 +32,8 @@ type Facts struct {
 	// nand: pairs of simple conditions known not to hold together (`if a && b { return }` fell through): as soon as
 	// one becomes known true the other is known false
 	nand map[string][2]ast.Expr
+	// vals: integer variables known to hold one of a few constants (the result of a helper that returns constants)
+	vals map[string][]int64
 }
 
 type pendAtom struct {
@@ -58,6 +61,12 @@ func (f Facts) clone() Facts {
 		n.pend = make(map[string]pendAtom, len(f.pend))
 		for k, v := range f.pend {
 			n.pend[k] = v
+		}
+	}
+	if len(f.vals) > 0 {
+		n.vals = make(map[string][]int64, len(f.vals))
+		for k, v := range f.vals {
+			n.vals[k] = v
 		}
 	}
 	if len(f.nand) > 0 {
@@ -230,6 +239,9 @@ func (f *Facts) assume(e ast.Expr, val bool) {
 	f.m[atom] = val != flip
 	if ra, ok := canonRel(f.info, e); ok {
 		f.rel[atom] = ra
+		if ra.Op == token.EQL && len(f.vals) > 0 {
+			f.refineVals(ra, val != flip)
+		}
 	} else if !flip {
 		if f.bexp == nil {
 			f.bexp = map[string]ast.Expr{}
@@ -372,6 +384,55 @@ func (f *Facts) kill(lv string) {
 			delete(f.nand, k)
 		}
 	}
+	for k := range f.vals {
+		if mentions(k, lv) {
+			delete(f.vals, k)
+		}
+	}
+}
+
+// refineVals: x == c decided for a variable with a known finite value set.
+func (f *Facts) refineVals(ra relAtom, val bool) {
+	for _, pr := range [][2]ast.Expr{{ra.X, ra.Y}, {ra.Y, ra.X}} {
+		name := normStr(f.info, pr[0])
+		set, ok := f.vals[name]
+		if !ok {
+			continue
+		}
+		c, isC := constInt(f.info, pr[1])
+		if !isC {
+			if lit, isL := pr[1].(*ast.BasicLit); isL {
+				if v, err := strconv.ParseInt(lit.Value, 0, 64); err == nil {
+					c, isC = v, true
+				}
+			}
+		}
+		if !isC {
+			continue
+		}
+		var nset []int64
+		for _, v := range set {
+			if (v == c) == val {
+				nset = append(nset, v)
+			}
+		}
+		if len(nset) == 0 {
+			if f.strict {
+				f.dead = true
+			}
+			return
+		}
+		f.vals[name] = nset
+		if len(nset) == 1 && !val {
+			f.setRel(token.EQL, pr[0], &ast.BasicLit{Kind: token.INT, Value: fmtInt(int(nset[0]))}, true)
+		}
+		if len(nset) > 1 {
+			// tighter bounds
+			f.setRel(token.LSS, pr[0], &ast.BasicLit{Kind: token.INT, Value: fmtInt(int(nset[0]))}, false)
+			f.setRel(token.LSS, &ast.BasicLit{Kind: token.INT, Value: fmtInt(int(nset[len(nset)-1]))}, pr[0], false)
+		}
+		return
+	}
 }
 
 func (f *Facts) killPrefix(prefix string) {
@@ -488,6 +549,10 @@ func (g *Graph) GuardFactsPS() *Solution[FactsPS] {
 		Step: func(s FactsPS, st Step) FactsPS {
 			out := make(FactsPS, 0, len(s))
 			for _, f := range s {
+				if st.Kind == StCond {
+					out = append(out, splitCond(base, f, st, st.Node.(ast.Expr), st.Val, 0)...)
+					continue
+				}
 				out = append(out, base.Step(f, st))
 			}
 			return norm(out)
@@ -534,8 +599,19 @@ func (g *Graph) factsLattice() Lattice[Facts] {
 					return false
 				}
 			}
-			if len(a.pend) != len(b.pend) || len(a.nand) != len(b.nand) {
+			if len(a.pend) != len(b.pend) || len(a.nand) != len(b.nand) || len(a.vals) != len(b.vals) {
 				return false
+			}
+			for k, av := range a.vals {
+				bv, ok := b.vals[k]
+				if !ok || len(av) != len(bv) {
+					return false
+				}
+				for i := range av {
+					if av[i] != bv[i] {
+						return false
+					}
+				}
 			}
 			for k := range a.nand {
 				if _, ok := b.nand[k]; !ok {
@@ -798,6 +874,20 @@ func (g *Graph) factsLattice() Lattice[Facts] {
 									}
 								}
 							}
+							if fn := calleeOf(info, x); fn != nil {
+								if callee := g.P.FuncOf(fn); callee != nil && callee.Pkg == g.P.Root {
+									if _, isId := lhs.(*ast.Ident); isId {
+										if set := g.P.resultConsts(callee); set != nil {
+											if n.vals == nil {
+												n.vals = map[string][]int64{}
+											}
+											n.vals[lhsStr] = set
+											n.setRel(token.LSS, lhs, &ast.BasicLit{Kind: token.INT, Value: fmtInt(int(set[0]))}, false)
+											n.setRel(token.LSS, &ast.BasicLit{Kind: token.INT, Value: fmtInt(int(set[len(set)-1]))}, lhs, false)
+										}
+									}
+								}
+							}
 							if hi, lo, ok := g.P.resultLenOf(info, x, 0); ok && !mentions(normStr(info, hi), lhsStr) {
 								if lo == 0 {
 									n.setRel(token.EQL, &ast.CallExpr{Fun: ast.NewIdent("len"), Args: []ast.Expr{lhs}}, hi, true)
@@ -971,6 +1061,28 @@ func joinFacts(g *Graph, a, b Facts, widen bool) Facts {
 				n.pend = map[string]pendAtom{}
 			}
 			n.pend[k] = v
+		}
+	}
+	for k, av := range a.vals {
+		if bv, ok := b.vals[k]; ok {
+			set := map[int64]bool{}
+			for _, v := range av {
+				set[v] = true
+			}
+			for _, v := range bv {
+				set[v] = true
+			}
+			if len(set) <= 8 {
+				var u []int64
+				for v := range set {
+					u = append(u, v)
+				}
+				sort.Slice(u, func(i, j int) bool { return u[i] < u[j] })
+				if n.vals == nil {
+					n.vals = map[string][]int64{}
+				}
+				n.vals[k] = u
+			}
 		}
 	}
 	for k, v := range a.nand {
@@ -1424,4 +1536,38 @@ func (f *Facts) sumFacts(g *Graph, lhs, rhs ast.Expr) {
 			f.setRel(token.LSS, lhs, plus(ops[i], k), false)
 		}
 	}
+}
+
+// splitCond steps over a branch condition path-sensitively: a conjunction that failed (a disjunction that held) is
+// split into the cases the short-circuit evaluation distinguishes, each assumed on its own copy of the state.
+func splitCond(base Lattice[Facts], f Facts, st Step, e ast.Expr, val bool, depth int) []Facts {
+	x := ast.Unparen(e)
+	if u, ok := x.(*ast.UnaryExpr); ok && u.Op == token.NOT && depth < 6 {
+		if _, isB := ast.Unparen(u.X).(*ast.BinaryExpr); isB {
+			return splitCond(base, f, st, u.X, !val, depth+1)
+		}
+	}
+	if b, ok := x.(*ast.BinaryExpr); ok && depth < 6 {
+		if b.Op == token.LAND && !val || b.Op == token.LOR && val {
+			// first operand decides; or it does not and the second decides
+			var out []Facts
+			out = append(out, splitCond(base, f, st, b.X, val, depth+1)...)
+			for _, g := range splitCond(base, f, st, b.X, !val, depth+1) {
+				out = append(out, splitCond(base, g, st, b.Y, val, depth+1)...)
+			}
+			// the whole condition is stepped as well, for what the base analysis derives from it (pending atoms etc.)
+			for i := range out {
+				out[i] = base.Step(out[i], Step{Kind: StCond, Node: st.Node, Val: st.Val})
+			}
+			return out
+		}
+		if b.Op == token.LAND && val || b.Op == token.LOR && !val {
+			var out []Facts
+			for _, g := range splitCond(base, f, st, b.X, val, depth+1) {
+				out = append(out, splitCond(base, g, st, b.Y, val, depth+1)...)
+			}
+			return out
+		}
+	}
+	return []Facts{base.Step(f, Step{Kind: StCond, Node: e, Val: val})}
 }
